@@ -1,3 +1,4 @@
+import json
 # C18 — secret randomness is in-domain and fresh; the mix permutation is uniform
 import itertools
 from props.util import *
@@ -12,6 +13,26 @@ RULE = ("scripted-RNG runs: rnd_exp, rnd_plaintext, rnd on num-bigint for q=11,2
         "repeated identical calls give different ciphertexts / commitments / proofs, re-encryption exponents of one shuffle are "
         "distinct and non-zero, no commitment equals a public base, two proofs by one secret have different commitments (2048 bits, ristretto); "
         "every permutation of N<=4 is produced by some script (all N! reachable)")
+
+
+def ref_fisher_yates(n, stream):
+    """rand 0.8 SliceRandom::shuffle over a byte stream: for i = n-1 .. 1: j = gen_index(i+1); swap(i, j);
+    gen_index = u32 widening-multiply rejection sampling. Returns (permutation, bytes consumed).
+    (Reference re-implementation for sizes too large for the Gallina model; it is itself compared with the model on the
+    sizes both can do.)"""
+    perm = list(range(n)); pos = 0
+    for i in range(n - 1, 0, -1):
+        rng_ = i + 1
+        lz = 32 - rng_.bit_length()
+        zone = ((rng_ << lz) - 1) & 0xFFFFFFFF
+        while True:
+            v = int.from_bytes(stream[pos:pos + 4], "little"); pos += 4
+            m = v * rng_
+            if (m & 0xFFFFFFFF) <= zone:
+                j = m >> 32
+                break
+        perm[i], perm[j] = perm[j], perm[i]
+    return perm, pos
 
 
 def run(env):
@@ -34,6 +55,18 @@ def run(env):
     for n in list(range(0, 9)) + [50] + ([300] if not env.quick else []):
         for _ in range(6 if n <= 8 else 2):
             cases.append({"ctx": "B:23", "op": "gen_permutation", "args": [str(n), script(r, 8 * n + 256)], "tag": "gen_permutation"})
+    # large lists (a sampler that switches strategy above a size threshold must still be Fisher-Yates on the stream):
+    # tied to the Gallina model up to N = 3000, compared with the reference re-implementation below beyond that
+    for n in ((2048, 3000) if env.quick else (1024, 2048, 3000, 4097)):
+        cases.append({"ctx": "B:23", "op": "gen_permutation", "args": [str(n), script(r, 8 * n + 256)], "tag": "gen_permutation-large"})
+    big_perm = [{"ctx": "B:23", "op": "gen_permutation", "args": [str(n), script(r, 6 * n + 256)], "tag": "gen_permutation-huge", "nontrivial": True}
+                for n in ((10000, 70000) if env.quick else (10000, 70000, 200000))]
+    for c, o in zip(big_perm, env.harness(big_perm)):
+        want = ref_fisher_yates(int(c["args"][0]), bytes.fromhex(c["args"][1][2:]))
+        if not isinstance(o, list) or o[0] != want[0] or o[1] != want[1]:
+            env.violation("gen_permutation(N=%s) is not Fisher-Yates over the RNG stream (rand 0.8 index sampler): first difference at position %s"
+                          % (c["args"][0], next((i for i, (a, b) in enumerate(zip(o[0], want[0])) if a != b), "?") if isinstance(o, list) else o),
+                          {"kind": "battery", "case": {"ctx": c["ctx"], "op": c["op"], "args": [c["args"][0], c["args"][1][:200] + "..."]}})
     # rejection-heavy scripts for the index sampler: words just above/below the zone
     for n in (3, 5, 6, 7):
         for hi in (0xFFFFFFFF, 0xFFFFFFFE, 0x80000000, 0x55555555, 0):
@@ -52,6 +85,10 @@ def run(env):
             env.violation("rnd_plaintext returned %s outside [0,q-2] on %s" % (o[0], c["ctx"]), {"kind": "battery", "case": c, "out": o})
         if c["op"] == "rnd" and not (1 <= int(o[0]) < P_ and pow(int(o[0]), q_, P_) == 1):
             env.violation("rnd returned a non-member on %s" % c["ctx"], {"kind": "battery", "case": c, "out": o})
+        if c["op"] == "gen_permutation" and isinstance(o, list) and c["args"][1].startswith("x:"):
+            want = ref_fisher_yates(int(c["args"][0]), bytes.fromhex(c["args"][1][2:]))
+            if len(bytes.fromhex(c["args"][1][2:])) >= want[1] and (o[0] != want[0] or o[1] != want[1]):
+                env.violation("gen_permutation(N=%s) differs from Fisher-Yates over the RNG stream" % c["args"][0], {"kind": "battery", "case": c, "out": o})
         if c["op"] == "gen_permutation" and sorted(o[0]) != list(range(int(c["args"][0]))):
             env.violation("gen_permutation returned a non-permutation", {"kind": "battery", "case": c, "out": o})
     # all N! permutations reachable (N <= 4): search scripts
@@ -115,6 +152,15 @@ def run(env):
                           {"kind": "battery", "case": {"ctx": ctx, "op": "fresh_sigma"}, "out": sg})
         elif any(c in (g_s, pk, one) for c in sg):
             env.violation("a sigma-proof commitment equals a public base on %s" % ctx, {"kind": "battery", "case": {"ctx": ctx, "op": "fresh_sigma"}, "out": sg})
+        # the same on several threads of one process (a per-thread generator must not replay another thread's stream)
+        th = env.harness([{"ctx": ctx, "op": "fresh_threads", "args": ["4", pk, m, "5"], "tag": "fresh-threads"}])[0]
+        if not isinstance(th, list) or any(not isinstance(t, list) for t in th):
+            env.violation("drawing randomness on several threads fails on %s: %s" % (ctx, str(th)[:200]), {"kind": "battery", "case": {"ctx": ctx, "op": "fresh_threads", "args": ["4", pk, m, "5"]}})
+        else:
+            exps = [x for t in th for x in t[0]]; cts = [json.dumps(t[1]) for t in th]; coms = [t[2] for t in th]
+            if len(set(exps)) != len(exps) or len(set(cts)) != len(cts) or len(set(coms)) != len(coms):
+                env.violation("threads of one process draw the same randomness on %s (equal exponents / ciphertexts / proof commitments across threads)" % ctx,
+                              {"kind": "battery", "case": {"ctx": ctx, "op": "fresh_threads", "args": ["4", pk, m, "5"]}, "out": th})
         # two proofs by the same secret: different commitments and (hence) unrelated responses; commitment never a public base
         prf = env.harness([{"ctx": ctx, "op": "schnorr_prove", "args": ["5", pk, None, "x:", "x:"], "tag": "fresh"} for _ in range(2)])
         # note: an empty script installs a scripted stream (SplitMix continuation): use the unscripted op set instead
